@@ -28,6 +28,7 @@ RULE = (
     "used+1, 2*used+1} (block nesting: 0..depth+2). Judged per value: outcome == unlimited outcome or a ResourceLimitError; and per limit: "
     "success at v => identical outcome at every larger swept value. Non-trivial = unlimited twin succeeds with non-empty output and at "
     "least one swept value aborts the render, distinct by (templates, data)."
+    " Rounds 5-6 added enumerated families: one environment, one limit, histories of refused and accepted templates (same and larger limit); engine-made values held in local variables."
 )
 REQUIRED = [
     ("liquid/context.py", "RenderContext.raise_for_loop_limit"),
